@@ -165,10 +165,18 @@ def run(chk):
     for k in range(8 if quick else 120):
         r = common.rng("C06", "sg", k)
         jobs.append(("same-gradient", k, S.lattice_scenario(r, same_gradient=True), 0.1, {"seed": [chk.seed, k], "variant": "lattice"}))
+    for k, (label, glyphs) in enumerate(S.reuse_fill_grid()):
+        if quick and k % 2:
+            continue
+        jobs.append(("reuse-grid", k, glyphs, 0.1, {"label": label, "variant": "lattice"}))
     for n, (kind, k, glyphs, tol, info) in enumerate(jobs):
         fmt = FORMATS[n % 3] if quick else None
         for f in ([fmt] if fmt else FORMATS):
             variant = CC.VARIANTS[n % len(CC.VARIANTS)] if n % 4 == 0 else None
+            if kind == "reuse-grid":
+                variant = S.LATTICE_CONFIG
+                if fmt:
+                    f = ["picosvg", "glyf_colr_1", "glyf_colr_1"][(k // 2) % 3]
             if kind == "same-gradient":
                 variant = S.LATTICE_CONFIG
                 if fmt:
